@@ -130,7 +130,7 @@ func init() {
 			o.Breaker = []int{0, 2}[r.Intn(2)]
 			o.Layerer = r.Intn(2)
 			o.Positioner = []int{0, 0, 1, 2, 3}[r.Intn(5)]
-			if o.Positioner == 3 && len(ids) > 10 {
+			if o.Positioner == 3 && len(ids) > 20 {
 				o.Positioner = 0
 			}
 			o.Router = 0
@@ -308,7 +308,7 @@ func init() {
 			o.Breaker = []int{0, 2}[r.Intn(2)]
 			o.Layerer = []int{0, 0, 1}[r.Intn(3)]
 			o.Positioner = []int{0, 0, 1, 2, 3}[r.Intn(5)]
-			if o.Positioner == 3 && len(ids) > 10 {
+			if o.Positioner == 3 && len(ids) > 40 {
 				o.Positioner = 0
 			}
 			o.Router = []int{0, 0, 1}[r.Intn(3)]
